@@ -380,3 +380,145 @@ theorem C02_timeout_steps_keep_counters (cfg : Cfg) (l : Led) (h : Nat) (txs : L
   exact reqCounter_congr h1 s d
 
 end Bxh.Props.C02
+
+namespace Bxh.Props.C02
+open Bxh Bxh.Exec
+
+/-! ### an accepted request reaches its destination's pier -/
+
+/-- the pier that serves a service: its chain's pier, or the union pier for a service of another BitXHub -/
+def destPier (env : Env) (d : SvcId) : String := if isLocal env d then d.chain else unionPier
+
+@[simp] theorem events_setS (l : Led) (k : Key) (v : Option Val) : (l.setS k v).events = l.events := rfl
+@[simp] theorem events_addS (l : Led) (k : Key) (v : Val) : (l.addS k v).events = l.events := rfl
+@[simp] theorem events_post (l : Led) (e : Ev) : (l.post e).events = l.events ++ [e] := rfl
+
+theorem events_setIC (l : Led) (s : SvcId) (i : IC) : (setIC l s i).events = l.events := rfl
+
+theorem events_setDestIC (l : Led) (f t : SvcId) (n : Nat) (ic : IC) : (setDestIC l f t n ic).events = l.events := rfl
+
+theorem events_foldl_setDestIC (cids : List TxId) (l : Led) :
+    (cids.foldl (fun l cid => setDestIC l cid.frm cid.to cid.index (getIC l cid.frm)) l).events = l.events := by
+  induction cids generalizing l with
+  | nil => rfl
+  | cons c rest ih => simp only [List.foldl_cons]; rw [ih]; rfl
+
+theorem events_processIBTP (l : Led) (i : Ibtp) (ck : Checked) (c : StatusChange) : (processIBTP l i ck c).1.events = l.events := by
+  unfold processIBTP
+  simp only
+  split
+  · rfl
+  · simp only [events_setS]
+    split
+    · split
+      · exact events_foldl_setDestIC _ _
+      · rfl
+    · rfl
+
+theorem events_addToMultiNotify (env : Env) (l : Led) (ids : List TxId) (b : Bool) : (addToMultiNotify env l ids b).events = l.events := by
+  unfold addToMultiNotify
+  split <;> rfl
+
+/-- `notifySrcDst` posts exactly one event; when the change notifies the destination side (and the IBTP is no failing child of a
+group), the event names the destination's pier with the batch flag -/
+theorem notifySrcDst_names_destination (env : Env) (l : Led) (src dst : SvcId) (c : StatusChange) (b : Bool)
+    (hd : (notifyFlags c).2 = true) (hf : c.isFailChild = false) :
+    ∃ m, (notifySrcDst env l src dst c b).events = l.events ++ [.interchain m] ∧ KV.get m (destPier env dst) = some b := by
+  unfold notifySrcDst destPier
+  cases hnf : notifyFlags c with
+  | mk ns nd =>
+    rw [hnf] at hd
+    simp only at hd
+    subst hd
+    simp only [hf, Bool.not_false, if_true]
+    cases ns <;> cases hl : isLocal env dst <;> cases isLocal env src <;>
+      simp only [if_true, if_false, Bool.false_eq_true, events_post, events_addToMultiNotify] <;>
+      exact ⟨_, rfl, KV.get_set_eq _ _ _⟩
+
+/-- the status change of a one-to-one begin that writes a fresh record -/
+theorem beginTransaction_fresh_change {env : Env} {l : Led} {i : Ibtp} {ck : Checked} {r : Led × StatusChange}
+    (e : beginTransaction env l i ck = .ok r) (hg : i.group = none ∨ ck.src.bxh ≠ ck.dst.bxh)
+    (hfresh : ck.src.bxh = ck.dst.bxh ∨ l.getS (.txRec { frm := ck.src, to := ck.dst, index := i.index }) = none) :
+    r.2.prev = none ∧ (r.2.cur = .begin ∨ r.2.cur = .beginFailure) ∧ r.2.isFailChild = false := by
+  unfold beginTransaction at e
+  simp only at e
+  split at e
+  · rename_i hb
+    have hnone : l.getS (.txRec { frm := ck.src, to := ck.dst, index := i.index }) = none := by
+      rcases hfresh with h | h
+      · exact absurd h hb
+      · exact h
+    split at e
+    · cases e
+    · rename_i r0 h0
+      cases e
+      unfold tmBeginInter at h0
+      rw [hnone] at h0
+      simp only at h0
+      cases h0
+      refine ⟨rfl, ?_, rfl⟩
+      by_cases ht : ck.targetErr = true <;> simp [ht]
+  · rename_i hb
+    have hgn : i.group = none := by
+      rcases hg with h | h
+      · exact h
+      · exact absurd (by simpa using hb) h
+    rw [hgn] at e
+    simp only at e
+    cases e
+    unfold tmBegin
+    refine ⟨rfl, ?_, rfl⟩
+    by_cases ht : ck.targetErr = true <;> simp [ht]
+
+/-- **an accepted one-to-one request is handed to its destination in the block that accepted it**: the interchain event of the
+transaction names the destination's pier — the destination appchain, or the union pier for a service of another BitXHub — with the
+batch flag (the executor turns the event into the block's delivery counter at the transaction's position, `counterOf`, and the
+router hands each pier its entries: `C02_router_hands_each_pier_its_delivery_set`) -/
+theorem C02_accepted_request_is_handed_to_its_destination (env : Env) (l : Led) (i : Ibtp) (ck : Checked) (r : Led × String)
+    (hck : checkIBTP env l i = .ok ck) (h : handleIBTP env l i = .ok r) (hreq : i.typ.isRequest = true)
+    (hg : i.group = none ∨ ck.src.bxh ≠ ck.dst.bxh)
+    (hfresh : ck.src.bxh = ck.dst.bxh ∨ l.getS (.txRec { frm := ck.src, to := ck.dst, index := i.index }) = none) :
+    ∃ m, Ev.interchain m ∈ r.1.events ∧ KV.get m (destPier env ck.dst) = some ck.isBatch := by
+  unfold handleIBTP at h
+  simp only [hck, hreq, if_true] at h
+  split at h
+  · cases h
+  · rename_i l1 c hr
+    obtain ⟨hp, hc, hfc⟩ := beginTransaction_fresh_change hr hg hfresh
+    have hd : (notifyFlags c).2 = true := by
+      unfold notifyFlags
+      simp only at hp hc
+      rw [hp]
+      rcases hc with hc | hc <;> simp [hc]
+    obtain ⟨m, hm1, hm2⟩ := notifySrcDst_names_destination env l1 ck.src ck.dst c ck.isBatch hd hfc
+    refine ⟨m, ?_, hm2⟩
+    have hpe := events_processIBTP (notifySrcDst env l1 ck.src ck.dst c ck.isBatch) i ck c
+    generalize hpr : processIBTP (notifySrcDst env l1 ck.src ck.dst c ck.isBatch) i ck c = pr at h hpe
+    obtain ⟨l3, ret⟩ := pr
+    simp only at h hpe
+    have hin : Ev.interchain m ∈ l3.events := by rw [hpe, hm1]; simp
+    split at h
+    · split at h
+      · cases h
+      · cases h
+        show Ev.interchain m ∈ ((l3.post .audit).post .audit).events
+        simp only [events_post, List.mem_append, List.mem_singleton]
+        exact Or.inl (Or.inl hin)
+    · cases h; exact hin
+
+
+-- non-vacuity: with hub 9999 registered, a request to a service over there is accepted and its event names the union pier;
+-- a request to a local service names that service's chain
+example :
+    let svc : Svc := { ordered := true, blacklist := [], available := true }
+    let l : Led := { store := [(.svc "c1" "s1", .svc svc), (.svc "c2" "s1", .svc svc)] }
+    let env : Env := { cfg := { hubs := ["9999"] }, cache := [], height := 12, txIndex := 0 }
+    let s11 : SvcId := { bxh := "1356", chain := "c1", sid := "s1" }
+    let rq (d : SvcId) : Ibtp := { frm := some s11, to := some d, index := 1, typ := .interchain, timeout := 3, group := none }
+    let named (x : Except String (Led × String)) : List (List (String × Bool)) := match x with
+      | .ok r => r.1.events.map (fun e => match e with | .interchain m => m | .audit => [])
+      | .error _ => []
+    named (handleIBTP env l (rq { bxh := "9999", chain := "c5", sid := "s1" })) = [[("default_union_pier_id", false)]] ∧
+    named (handleIBTP env l (rq { bxh := "1356", chain := "c2", sid := "s1" })) = [[("c2", false)]] := by decide
+
+end Bxh.Props.C02
